@@ -91,11 +91,18 @@ Definition chunk_eqb (a b : chunk) : bool :=
 Definition labels_eqb : labels -> labels -> bool := list_eqb (pair_eqb str_eqb str_eqb).
 Definition frame_eqb (a b : labels * list chunk) : bool :=
   labels_eqb (fst a) (fst b) && list_eqb chunk_eqb (snd a) (snd b).
-Definition first_min (cs : list chunk) : Z := match cs with [] => 0 | (m, _, _) :: _ => m end.
+(* a total order on frames (labels, then the chunk lists lexicographically) so that the
+   canonical form does not depend on the order in which equal-label frames arrive *)
+Definition chunk_cmp (a b : chunk) : comparison :=
+  let '(a1, a2, a3) := a in let '(b1, b2, b3) := b in
+  match Z.compare a1 b1 with
+  | Eq => match Z.compare a2 b2 with Eq => Z.compare a3 b3 | c => c end
+  | c => c
+  end.
 Definition frame_le (a b : labels * list chunk) : bool :=
   match lbl_cmp (fst a) (fst b) with
   | Lt => true | Gt => false
-  | Eq => first_min (snd a) <=? first_min (snd b)
+  | Eq => match lex_cmp chunk_cmp (snd a) (snd b) with Gt => false | _ => true end
   end.
 Fixpoint finsert (x : labels * list chunk) (l : list (labels * list chunk)) :=
   match l with [] => [x] | y :: r => if frame_le x y then x :: l else y :: finsert x r end.
